@@ -205,6 +205,8 @@ func implC04(line string) string {
 		return rejectVerdict(src, o.err)
 	case "early":
 		return implEarly(f)
+	case "earlyfn":
+		return implEarlyFn(f)
 	case "early2":
 		return implEarly2(f)
 	case "resv":
